@@ -4,16 +4,15 @@ import z3
 from pyvc.harness import task
 from pyvc import setmode as SM
 from pyvc import values as V
-from .algos import (ALGOS, CHK, COV, DOM, AlgoState, install_predicate_contracts, reg, same_set, set_is,
-                    slack_num, transition)
+from .algos import (ALGOS, CHK, COV, DOM, AlgoState, install_predicate_contracts, same_set, set_is,
+                    slack_num, transition, Specs)
 
 q = z3.Int("q!w")
 
 
 def ps_spec(A, p):
     """p in the pessimistic set of W = S0 u P0: no other member's region check-dominates p's."""
-    W = lambda e: z3.Or(z3.Select(A.S0, e), z3.Select(A.P0, e))
-    return z3.And(W(p), z3.Not(z3.Exists([q], z3.And(W(q), q != p, CHK(A.order, reg(q), reg(p))))))
+    return Specs(A).pess(A.S0, A.P0, A.REG0)(p)
 
 
 def _paveba_family(name):
@@ -26,8 +25,7 @@ def _paveba_family(name):
         t.must_fail()
         t.cover("two-active-designs", [z3.Select(A.S0, 0), z3.Select(A.S0, 1), A.N >= 2])
         t.no_raise(paths)
-        act = lambda e: z3.Or(z3.Select(A.S0, e), z3.Select(A.U0, e))
-        cert = lambda p: z3.Exists([q], z3.And(act(q), q != p, DOM(A.order, reg(p), reg(q), slack_num(0))))
+        cert = Specs(A).cert_paveba(A.S0, A.U0, A.REG0)
 
         transition(t, A, paths, "discarding", "exactly_certified_designs_leave(zero slack, witness in S u U)",
                    S=lambda e: z3.And(z3.Select(A.S0, e), z3.Not(cert(e))))
@@ -78,7 +76,7 @@ def _vogp_family(name, slack_of):
         if len(PSs) != 1:
             return
         PS = PSs[0]  # the array the call-site contract characterised as exactly the specification's pessimistic set
-        cert = lambda p: z3.And(z3.Not(z3.Select(PS, p)), z3.Exists([q], z3.And(z3.Select(PS, q), DOM(A.order, reg(p), reg(q), sl))))
+        cert = Specs(A).cert_vogp(PS, A.REG0, sl)
 
         transition(t, A, paths, "discarding", "exactly_non_pessimistic_designs_certified_by_a_pessimistic_witness_leave(eps slack)",
                    S=lambda e: z3.And(z3.Select(A.S0, e), z3.Not(cert(e))))
